@@ -225,6 +225,19 @@ theorem o0basis_translated_exact (el : Elem)
 
 example : SqiGen.QuatAlg.from_1ijk_to_O0basis 2 5 3 1 1 = (2, 1, 1, 1) := by decide
 
+/-- the translated C text of `quat_alg_rightmul_mat` (both fixed loops unrolled, one call of the GENERATED `quat_alg_mul` per
+    column) = the model (all 16 entries, row-major), whose column i holds the numerators of eᵢ·a over the denominator of a:
+    the matrix of right multiplication by a on the basis 1, i, j, ij of `H p` -/
+theorem quat_alg_rightmul_mat_translated_exact (p : ℤ) (a : Elem) (ha : a.denom ≠ 0) :
+    SqiGen.QuatAlg.quat_alg_rightmul_mat p a.denom a.coord.x0 a.coord.x1 a.coord.x2 a.coord.x3 =
+      QuatAlgText.mtup (rightMulMat p a) ∧
+    rightMulMat p a = Mat4.ofCols (algMul p ⟨1, ⟨1, 0, 0, 0⟩⟩ a).coord (algMul p ⟨1, ⟨0, 1, 0, 0⟩⟩ a).coord
+      (algMul p ⟨1, ⟨0, 0, 1, 0⟩⟩ a).coord (algMul p ⟨1, ⟨0, 0, 0, 1⟩⟩ a).coord ∧
+    ∀ e : Vec4, val p (algMul p ⟨1, e⟩ a) = val p ⟨1, e⟩ * val p a :=
+  ⟨QuatAlgText.rightmul_mat_gen p a, rfl, fun e => algMul_val p ⟨1, e⟩ a one_ne_zero ha⟩
+
+example : SqiGen.QuatAlg.quat_alg_rightmul_mat 3 1 0 1 0 0 = (0, -1, 0, 0, 1, 0, 0, 0, 0, 0, 0, 1, 0, 0, -1, 0) := by rfl
+
 example : SqiGen.QuatAlg.quat_alg_sub 2 1 2 3 4 3 5 6 7 8 = (6, -7, -6, -5, -4) := by decide
 
 /-- tie T: the entry scan of `ibz_mat_4x4_gcd` as translated from the current C text is the model's content of ALL 16
